@@ -11,11 +11,14 @@ package gossip
 import (
 	"context"
 	"crypto/sha256"
+	"time"
 
 	"google.golang.org/grpc"
 	"google.golang.org/protobuf/types/known/emptypb"
 
 	"github.com/bartossh/Computantis/src/protobufcompiled"
+	"github.com/bartossh/Computantis/src/transaction"
+	"github.com/bartossh/Computantis/src/transformers"
 	"github.com/bartossh/Computantis/src/verifrt"
 	"github.com/bartossh/Computantis/src/wallet"
 )
@@ -87,6 +90,15 @@ func (w *vhC12World) gossiper(acc accounter) *gossiper {
 		flash: vhQuietFlash{}, nodes: map[string]nodeData{}, url: "u"}
 }
 
+// vhWarmUp: optionally, the node has earlier honestly received the OTHER item with the genuine entries of the
+// honest peer and of itself (what ordinary gossip makes it verify before the adversary's message arrives).
+func (w *vhC12World) vhWarmUp(g *gossiper) {
+	if verifrt.Choose("earlier-honest-gossip-of-the-other-item", 2) == 1 {
+		set := g.verifyGossipers(w.other, []*protobufcompiled.Gossiper{vhSigned(&w.p, w.p.Address(), w.other), vhSigned(&w.n, w.n.Address(), w.other)})
+		verifrt.Assert(len(set) == 2, "C12/warm-up/genuine-entries-verify")
+	}
+}
+
 type vhQuietFlash struct{}
 
 func (vhQuietFlash) HasHash(h []byte) (bool, error) { return false, nil }
@@ -97,6 +109,7 @@ func (vhQuietFlash) RemoveAddress(a string) error   { return nil }
 func VH_C12_verify_gossipers() {
 	w := vhC12Setup()
 	g := w.gossiper(nil)
+	w.vhWarmUp(g)
 	list := []*protobufcompiled.Gossiper{w.vhEntry("entry1"), w.vhEntry("entry2")}
 	set := g.verifyGossipers(w.h, list)
 	_, hasP := set[w.p.Address()]
@@ -118,6 +131,11 @@ func (c vhRecClient) GossipVrx(ctx context.Context, in *protobufcompiled.VrxMsgG
 	return &emptypb.Empty{}, nil
 }
 
+func (c vhRecClient) GossipTrx(ctx context.Context, in *protobufcompiled.TrxMsgGossip, opts ...grpc.CallOption) (*emptypb.Empty, error) {
+	*c.calls++
+	return &emptypb.Empty{}, nil
+}
+
 type vhOkAcc struct {
 	vhAcc
 	added *int
@@ -135,6 +153,7 @@ func VH_C12_decisions() {
 	g.nodes[w.p.Address()] = nodeData{url: "p", client: vhRecClient{calls: &forwards}}
 	vhConcreteTimes = true
 	v := vhProtoVertexFull(w.h)
+	w.vhWarmUp(g)
 	list := []*protobufcompiled.Gossiper{w.vhEntry("entry1"), w.vhEntry("entry2")}
 	_, err := g.GossipVrx(context.Background(), &protobufcompiled.VrxMsgGossip{Vertex: v, Gossipers: list})
 	if err == nil {
@@ -155,4 +174,35 @@ func vhProtoVertexFull(h [32]byte) *protobufcompiled.Vertex {
 	return &protobufcompiled.Vertex{SignerPublicAddress: "S", CreatedAt: 1700000000000000000, Signature: []byte{1}, Hash: h[:], LeftParentHash: z[:], RightParentHash: z[:], Weight: 1,
 		Transaction: &protobufcompiled.Transaction{Subject: "s", Hash: z[:], CreatedAt: 1700000000000000000, ReceiverAddress: "r", IssuerAddress: "i", IssuerSignature: []byte{1},
 			Spice: &protobufcompiled.Spice{Currency: 1}}}
+}
+
+// VH_C12_trx_decisions: the same for awaited-transaction gossip (GossipTrx / gossipTransaction): whatever
+// list is attached, the node stores the transaction and forwards it to a peer that has not validly signed.
+func VH_C12_trx_decisions() {
+	verifrt.CheckLeaks(true)
+	w := vhC12Setup()
+	trx := transaction.Transaction{CreatedAt: time.Unix(1700000000, 0), IssuerAddress: w.a.Address(), ReceiverAddress: w.p.Address(),
+		Subject: "s", Data: []byte{1}}
+	trx.Hash, trx.IssuerSignature = w.a.Sign(trx.GetMessage())
+	w.h = trx.Hash
+	verifrt.Assume(w.h != w.other)
+	world := &vhWorld{}
+	g := w.gossiper(vhAcc{world})
+	g.trxCache = vhCacheD{world}
+	forwards := 0
+	g.nodes[w.p.Address()] = nodeData{url: "p", client: vhRecClient{calls: &forwards}}
+	pt, err := transformers.TrxToProtoTrx(trx)
+	verifrt.Assert(err == nil, "C12/trx-decisions/setup")
+	w.vhWarmUp(g)
+	list := []*protobufcompiled.Gossiper{w.vhEntry("entry1"), w.vhEntry("entry2")}
+	_, err = g.GossipTrx(context.Background(), &protobufcompiled.TrxMsgGossip{Trx: pt, Gossipers: list})
+	verifrt.Assert(err == nil, "C12/trx-decisions/valid-transaction-accepted")
+	verifrt.Assert(world.mutations == 1, "C12/trx-decisions/forged-self-entry-does-not-stop-processing")
+	verifrt.Quiesce() // let the forwarding goroutines run
+	if w.usedGenuineP {
+		verifrt.Assert(forwards == 0, "C12/trx-decisions/not-forwarded-to-a-peer-that-signed")
+	} else {
+		verifrt.Assert(forwards == 1, "C12/trx-decisions/still-forwarded-to-a-peer-that-did-not-sign")
+	}
+	verifrt.Reach("C12/trx-decisions/end")
 }
